@@ -7,9 +7,9 @@ seeds = {k: v for k, v in res.items() if not k.startswith("hist-")}
 hist = {k: v for k, v in res.items() if k.startswith("hist-")}
 caught = {k: v for k, v in seeds.items() if v["caught_by"]}
 missed = sorted(k for k in seeds if k not in caught)
-waves = {"1": [], "2 (b)": [], "3 (c)": [], "4 (d)": [], "5 (e)": [], "6 (f)": []}
+waves = {"1": [], "2 (b)": [], "3 (c)": [], "4 (d)": [], "5 (e)": [], "6 (f)": [], "7 (g)": []}
 for k in seeds:
-    w = {"b": "2 (b)", "c": "3 (c)", "d": "4 (d)", "e": "5 (e)", "f": "6 (f)"}.get(k[3:4], "1") if not k[3:4].isdigit() and k[3:4] != "-" else "1"
+    w = {"b": "2 (b)", "c": "3 (c)", "d": "4 (d)", "e": "5 (e)", "f": "6 (f)", "g": "7 (g)"}.get(k[3:4], "1") if not k[3:4].isdigit() and k[3:4] != "-" else "1"
     waves[w].append(k)
 lines = []
 lines.append(f"  {len(caught)} of {len(seeds)} seeded changes and {sum(1 for v in hist.values() if v['caught_by'])} of {len(hist)} reversed `fix:` commits are reported "
